@@ -21,7 +21,7 @@ for d in sorted(glob.glob(os.path.join(HERE, "seeded", "*"))):
     if os.path.exists(pp):
         files = ", ".join(sorted(set(re.findall(r"^\+\+\+ b/(\S+)", open(pp).read(), re.M))))
     caught = ", ".join(m.get("caught_by", [])) or "**none**"
-    if m.get("status", "").startswith("obsolete"):
+    if m.get("status", "").startswith("obsolete") or m.get("status", "").startswith("outside"):
         caught += " (" + m["status"].split(":")[0] + ", see meta.json)"
     rows.append("| %s | %s | %s | %s | %s |" % (m["seed_id"], m["property"], files, caught, m.get("suite_with_change", "n/a")[:40]))
 table = ["| seeded change | property attacked | files changed | caught by (quick tier, exit 1) | repository suite with the change |", "|---|---|---|---|---|"] + rows
